@@ -114,8 +114,15 @@ pub fn declaration_map(src: &str) -> BTreeMap<String, String> {
     let p = tsx::parse(src);
     let mut out = BTreeMap::new();
     let mut anon = 0;
+    // An item's span runs up to the next token, i.e. it ends with the comments that *precede the
+    // next declaration* (its JSDoc). Those belong to the next declaration: cut them off and put
+    // them in front of the following item, otherwise the text of a declaration would depend on
+    // which declaration happens to follow it.
+    let mut leading = String::new();
     for it in &p.module.items {
-        let text = tsx::collapse_ws(&src[it.start..it.end.min(src.len())]);
+        let (code, trailing) = split_trailing_comments(&src[it.start..it.end.min(src.len())]);
+        let text = tsx::collapse_ws(&format!("{} {}", leading, code));
+        leading = trailing.to_string();
         let key = match &it.item {
             Item::Import { from, .. } => format!("import:{}:{}", from, text),
             Item::ExportAll { from } => format!("export*:{}", from),
@@ -144,6 +151,27 @@ pub fn declaration_map(src: &str) -> BTreeMap<String, String> {
         out.insert(format!("unparsed:{}", i), tsx::collapse_ws(line));
     }
     out
+}
+
+/// split `raw` into (code, comments that follow the code up to the end of `raw`)
+fn split_trailing_comments(raw: &str) -> (&str, &str) {
+    let mut end = raw.len();
+    loop {
+        let t = raw[..end].trim_end();
+        if t.ends_with("*/") {
+            if let Some(i) = t.rfind("/*") {
+                end = i;
+                continue;
+            }
+        }
+        let line_start = t.rfind('\n').map(|i| i + 1).unwrap_or(0);
+        if line_start > 0 && t[line_start..].trim_start().starts_with("//") {
+            end = line_start;
+            continue;
+        }
+        break;
+    }
+    (raw[..end].trim_end(), raw[end..].trim())
 }
 
 fn strip_block_comments(s: &str) -> String {
@@ -175,7 +203,7 @@ pub fn compare_generated(reference: &BTreeMap<String, String>, actual: &BTreeMap
                     for (k, v) in &rm {
                         match am.get(k) {
                             None => out.push(format!("{}: declaration {} missing", name, k)),
-                            Some(av) if av != v => out.push(format!("{}: declaration {} differs: current sources give `{}`, output has `{}`", name, k, crate::run::truncate(v, 160), crate::run::truncate(av, 160))),
+                            Some(av) if av != v => out.push(format!("{}: declaration {} differs: current sources give `{}`, output has `{}`", name, k, window_at_difference(v, av), window_at_difference(av, v))),
                             _ => {}
                         }
                     }
@@ -189,6 +217,19 @@ pub fn compare_generated(reference: &BTreeMap<String, String>, actual: &BTreeMap
         }
     }
     out
+}
+
+/// the part of `a` around the first position where it differs from `b` (long declarations start
+/// with a JSDoc block that would otherwise fill the message)
+pub fn window_at_difference(a: &str, b: &str) -> String {
+    let ac: Vec<char> = a.chars().collect();
+    let common = ac.iter().zip(b.chars()).take_while(|(x, y)| **x == *y).count();
+    if ac.len() <= 200 {
+        return a.to_string();
+    }
+    let from = common.saturating_sub(70);
+    let to = (common + 130).min(ac.len());
+    format!("{}{}{}", if from > 0 { "…" } else { "" }, ac[from..to].iter().collect::<String>(), if to < ac.len() { "…" } else { "" })
 }
 
 pub fn read_tree_text(dir: &Path) -> BTreeMap<String, String> {
